@@ -382,6 +382,9 @@ def _differ_everywhere(om, st, a, b):
                 diff += 1
             else:
                 return False
+        if diff == 0 and da[0] is not None and db[0] is not None and da[1] == db[1]:
+            # identical fields behind prefixes that differ (3.0 / 3.1)
+            return _differ_everywhere(om, st, da[0], db[0])
         return diff >= 1
     if isinstance(a, App) and isinstance(b, App) and a.op == b.op == "cat" and len(a.args) == len(b.args):
         return any(_differ_everywhere(om, st, x, y) for x, y in zip(a.args, b.args) if not (isinstance(x, Term) and isinstance(y, Term) and x == y))
